@@ -53,14 +53,19 @@ RULE = ("Program = (dtype in {float64, float32, complex128}; a hierarchy of 1-4 
         "instantiate a class on a batched matrix [Hermitian-flagged or not], wrap a dense matrix, build a jac operator, "
         "compose with .H / matmul / + / - / rsub / scalar* / *scalar / A.matmul(A.H, is_hermitian=True), apply "
         "mv/mm/rmv/rmm/fullmatrix with a broadcastable or deliberately mismatched operand [under no_grad or not], query "
-        "capability properties, and requests that must be rejected). Every program is executed in 2 (quick) or 3 fresh "
+        "capability properties, and requests that must be rejected); one class in eight has a _mv that autograd cannot "
+        "differentiate (adjoint products over it without _rmv must be right or rejected, never wrong); a caller that "
+        "passed its shape as a list edits the list afterwards; most matrices of a program share a home shape, sums and "
+        "differences of three operands are built left- and right-nested with the operand kinds drawn first, and a freshly "
+        "built expression is applied at once half of the time. Every program is executed in 2 (quick) or 3 fresh "
         "forked processes, each with a different prelude of first instantiations / rejected instantiations. "
         "A case is non-trivial iff the body applied >=1 product to a composed or user-class operator that the model "
         "says is valid AND the schedules differ in the order of first instantiation or contain a rejected "
         "instantiation; distinct = distinct (class-hierarchy signature, prelude signature, multiset of (expression "
         "shape, product) pairs, dtype) tuples.")
 ASSUMPTIONS = [
-    "user classes are internally consistent (their optional products implement the same matrix as _mv)",
+    "user classes are internally consistent (their optional products implement the same matrix as _mv); a class may "
+    "compute its _mv outside autograd, in which case a rejection of adjoint products that need the adjoint trick is accepted",
     "matrices are either exactly Hermitian or asymmetric by O(1): the allclose-based auto-detection in "
     "LinearOperator.m is never probed near its threshold",
     "all operands of one expression share one dtype; scalars for * are Python ints/floats",
